@@ -11,12 +11,6 @@ specification is written with.
 namespace Dmn
 namespace Bif
 
-/-- a number written without fraction digits (`2`, `20`, not `2.0`) -/
-def Plain (v : Value) : Prop :=
-  match v with
-  | .num d => 0 ≤ d.exp
-  | _ => True
-
 /-- the length Rust's `usize` has to hold -/
 def lenOf (v : Value) : Nat :=
   match v with
@@ -359,7 +353,25 @@ theorem inst_toPos (names : List String) (args : List Value) (hnd : names.Nodup)
   cases a with
   | var name => simp [NArg.toPos, PArg.inst, NArg.inst, namedGet_bind names args hnd hlen]
   | itemsOf name => simp [NArg.toPos, PArg.inst, NArg.inst, namedGet_bind names args hnd hlen]
+  | single name => simp [NArg.toPos, PArg.inst, NArg.inst, namedGet_bind names args hnd hlen]
   | nullLit => rfl
+
+/-- normalising `parameters` to "the slice of the one parameter" does not change its value -/
+theorem inst_norm (args : List Value) (a : PArg) : PArg.inst args (PArg.norm args.length a) = PArg.inst args a := by
+  unfold PArg.norm
+  split
+  · split
+    · rename_i h1
+      match args, h1 with
+      | [x], _ => simp [PArg.inst]
+    · rfl
+  · rfl
+
+theorem mapM_inst_norm (args : List Value) (as : List PArg) :
+    (as.map (PArg.norm args.length)).mapM (PArg.inst args) = as.mapM (PArg.inst args) := by
+  induction as with
+  | nil => rfl
+  | cons a as ih => simp only [List.map_cons, List.mapM_cons, inst_norm, ih]
 
 theorem mapM_inst_toPos (names : List String) (args : List Value) (hnd : names.Nodup)
     (hlen : args.length ≤ names.length) (as : List NArg) :
@@ -397,6 +409,10 @@ theorem PArg.inst_safe (args : List Value) (n : Nat) (lists : List Nat) (hn : n 
     simp only [PArg.safe, List.contains_iff_mem] at h
     obtain ⟨xs, hxs⟩ := hl i h
     simp [PArg.inst, hxs]
+  | single i =>
+    simp only [PArg.safe, decide_eq_true_eq] at h
+    have : i < args.length := by omega
+    simp [PArg.inst, List.getElem?_eq_getElem this]
 
 theorem mapM_isSome {α β : Type} (f : α → Option β) (l : List α) (h : ∀ a ∈ l, (f a).isSome = true) :
     (l.mapM f).isSome = true := by
